@@ -1749,6 +1749,13 @@ inline bool Chunk::SafeToDeleteNl() const
    {
       return(false);
    }
+
+   // a line of a disabled region keeps the line breaks on both of its sides
+   if (  tmp->Is(CT_IGNORED)
+      || GetNext()->Is(CT_IGNORED))
+   {
+      return(false);
+   }
    return(tmp->IsSamePreproc(GetNext()));
 }
 
